@@ -542,6 +542,14 @@ impl World {
                     None => Want::Unspec,
                 }
             }
+            Op::WalkAfter { muts, .. } => {
+                // the walk's items are compared between twins, not with the model; the mutations
+                // are ordinary operations
+                for m in muts {
+                    let _ = self.apply(m);
+                }
+                Want::Unspec
+            }
             // decided by dedicated oracles (time mode, handle mode) or not at all
             Op::SetTime(..)
             | Op::OpenRead(..)
